@@ -99,11 +99,14 @@ package ipam
 //@   loop 3 invariant blkWFq(b)
 //@   loop 3 invariant fresh(ordinals) && (forall j int :: 0 <= j && j < len(ordinals) ==> blkA(b)[ordinals[j]] != nil) && releaseAttrIdx != nil
 //@ -- a new attribute entry is appended; nothing else of the block changes, and the index cell returned is new
+//@ -- (C21) every release gets its OWN cooldown entry, stamped at the time of that release: the index returned is
+//@ -- that of the entry appended by this call, never an older entry's (whose clock started earlier)
 //@ func (*allocationBlock).addCooldownAttribute
-//@   property C19
+//@   property C19, C21
 //@   option safety off
 //@   requires b != nil && b.AllocationBlock != nil
 //@   ensures res != nil && fresh(res)
+//@   ensures *res == old(len(b.AllocationBlock.Attributes)) && len(b.AllocationBlock.Attributes) == old(len(b.AllocationBlock.Attributes)) + 1
 //@   assigns b.AllocationBlock.Attributes, b.AllocationBlock.Attributes[*]
 
 //@ -- ---------------------------------------------------------------- C19: one owner per address (block level)
